@@ -355,6 +355,18 @@ func (ca *condAtoms) form(e ast.Expr, depth int) *cform {
 				return &cform{op: gLeaf, atom: -1 - k}
 			}
 		}
+		// the comma-ok of a lookup in a map that is certainly nil (a helper expanded with a nil map argument): false
+		if rhs, idx := ca.g.DefOf(x, ca.g.FactSite(x)); rhs != nil && idx == 1 {
+			if ix, isIx := ast.Unparen(rhs).(*ast.IndexExpr); isIx {
+				if mid, isId := ast.Unparen(ix.X).(*ast.Ident); isId {
+					if _, isMap := f.Info().TypeOf(mid).Underlying().(*types.Map); isMap {
+						if mdef := f.LocalDef(mid); mdef != nil && f.IsNilLit(unconvExpr(f, mdef)) {
+							return &cform{op: gTrue, val: false}
+						}
+					}
+				}
+			}
+		}
 		if depth < 4 {
 			if rhs := f.LocalDef(x); rhs != nil {
 				if tv, ok := f.Info().Types[rhs]; ok && tv.Type != nil {
@@ -1204,10 +1216,37 @@ func (g *Graph) boolFlags() []types.Object {
 			})
 		}
 	}
+	// a found-index variable may be a copy of another (`i := _inlNr0` after an expanded search): the variables it is
+	// assigned from become candidates too, and a copy is accepted when its source is
+	for changed := true; changed; {
+		changed = false
+		ast.Inspect(f.Body, func(nd ast.Node) bool {
+			st, ok := nd.(*ast.AssignStmt)
+			if !ok || len(st.Lhs) != len(st.Rhs) {
+				return true
+			}
+			for i, l := range st.Lhs {
+				lid, isId := l.(*ast.Ident)
+				if !isId || signCand[f.ObjOf(lid)] == nil {
+					continue
+				}
+				if rid, isR := ast.Unparen(st.Rhs[i]).(*ast.Ident); isR {
+					if ro, isVar := f.ObjOf(rid).(*types.Var); isVar && signCand[ro] == nil && f.ConstVal(rid) == nil {
+						if _, known := signOf(f, rid); !known {
+							signCand[ro] = rid
+							changed = true
+						}
+					}
+				}
+			}
+			return true
+		})
+	}
 	var signObjs []types.Object
 	for o := range signCand {
 		signObjs = append(signObjs, o)
 	}
+	signCopyOf := map[types.Object][]types.Object{} // accepted only if every source is
 	sort.Slice(signObjs, func(i, j int) bool { return signObjs[i].Pos() < signObjs[j].Pos() })
 	for _, o := range signObjs {
 		id := signCand[o]
@@ -1240,7 +1279,11 @@ func (g *Graph) boolFlags() []types.Object {
 							continue
 						}
 						if _, known := signOf(f, st.Rhs[i]); !known {
-							okAll = false
+							if rid, isR := ast.Unparen(st.Rhs[i]).(*ast.Ident); isR && signCand[f.ObjOf(rid)] != nil && f.ObjOf(rid) != o {
+								signCopyOf[o] = append(signCopyOf[o], f.ObjOf(rid))
+							} else {
+								okAll = false
+							}
 						}
 					}
 				}
@@ -1268,6 +1311,28 @@ func (g *Graph) boolFlags() []types.Object {
 				g.flagIdent = map[types.Object]*ast.Ident{}
 			}
 			g.flagIdent[o] = id
+		}
+	}
+	// a copy is a found-index variable only if its sources are
+	for changed := true; changed; {
+		changed = false
+		for o, srcs := range signCopyOf {
+			if !g.signFlags[o] {
+				continue
+			}
+			for _, src := range srcs {
+				if !g.signFlags[src] {
+					delete(g.signFlags, o)
+					for i, x := range out {
+						if x == o {
+							out = append(out[:i], out[i+1:]...)
+							break
+						}
+					}
+					changed = true
+					break
+				}
+			}
 		}
 	}
 	// locals of a basic type that conditions compare with one constant only (an enumeration result tested against its
@@ -1698,6 +1763,13 @@ func (ga *guardAnalysis) transferNode(n ast.Node, s []uint64) []uint64 {
 			case ga.g.signFlags[ga.ca.flags[k]]:
 				if nn, ok := signOf(f, rhs); ok {
 					cf = &cform{op: gTrue, val: nn}
+				} else if rid, isId := ast.Unparen(rhs).(*ast.Ident); isId {
+					// a copy of another found-index variable
+					if o2 := f.ObjOf(rid); o2 != nil && ga.g.signFlags[o2] {
+						if k2 := ga.ca.flagIndex(o2); k2 >= 0 {
+							cf = &cform{op: gLeaf, atom: -1 - k2}
+						}
+					}
 				}
 			case ga.g.eqFlags[ga.ca.flags[k]] != nil:
 				want := ga.g.eqFlags[ga.ca.flags[k]]
@@ -2828,4 +2900,19 @@ func (f *Fn) assignmentsTo(o types.Object) []*ast.AssignStmt {
 		return true
 	})
 	return out
+}
+
+// unconvExpr strips parentheses and type conversions.
+func unconvExpr(f *Fn, e ast.Expr) ast.Expr {
+	for {
+		e = ast.Unparen(e)
+		c, ok := e.(*ast.CallExpr)
+		if !ok || len(c.Args) != 1 {
+			return e
+		}
+		if tv, has := f.Info().Types[c.Fun]; !has || !tv.IsType() {
+			return e
+		}
+		e = c.Args[0]
+	}
 }
